@@ -426,9 +426,18 @@ fn child_main(args: &Args) {
     let file = args.extra.get("file").expect("file=");
     let start: usize = args.extra.get("start").and_then(|s| s.parse().ok()).unwrap_or(0);
     let end: usize = args.extra.get("end").and_then(|s| s.parse().ok()).unwrap_or(usize::MAX);
-    let f = std::io::BufReader::new(std::fs::File::open(file).expect("cases file"));
+    // `offset` = byte position of line `first` (so that a child does not scan the whole file)
+    let offset: u64 = args.extra.get("offset").and_then(|s| s.parse().ok()).unwrap_or(0);
+    let first: usize = args.extra.get("first").and_then(|s| s.parse().ok()).unwrap_or(0);
+    let mut file = std::fs::File::open(file).expect("cases file");
+    {
+        use std::io::Seek;
+        file.seek(std::io::SeekFrom::Start(offset)).expect("seek");
+    }
+    let f = std::io::BufReader::new(file);
     let out = std::io::stdout();
-    for (i, line) in f.lines().enumerate() {
+    for (k, line) in f.lines().enumerate() {
+        let i = first + k;
         if i < start {
             continue;
         }
@@ -659,6 +668,24 @@ fn run_children(cases_path: &std::path::Path, n: usize, workers: usize, timeout_
     let workers = workers.max(1);
     // interleaved small blocks so that every worker gets a similar mix of cheap and expensive histories
     let block = 200usize;
+    // byte offset of the first line of every block
+    let mut block_offsets: Vec<u64> = vec![];
+    {
+        let data = std::fs::read(cases_path).expect("cases file");
+        let mut line = 0usize;
+        let mut pos = 0usize;
+        while pos < data.len() {
+            if line % block == 0 {
+                block_offsets.push(pos as u64);
+            }
+            match data[pos..].iter().position(|b| *b == b'\n') {
+                Some(k) => pos += k + 1,
+                None => pos = data.len(),
+            }
+            line += 1;
+        }
+    }
+    let block_offsets = std::sync::Arc::new(block_offsets);
     let (tx, rx) = mpsc::channel::<WorkerMsg>();
     let next_block = std::sync::Arc::new(std::sync::atomic::AtomicUsize::new(0));
     let mut handles = vec![];
@@ -667,6 +694,7 @@ fn run_children(cases_path: &std::path::Path, n: usize, workers: usize, timeout_
         let exe = exe.clone();
         let cases_path = cases_path.to_path_buf();
         let next_block = next_block.clone();
+        let block_offsets = block_offsets.clone();
         handles.push(std::thread::spawn(move || {
             let mut lines = vec![];
             let mut viols = vec![];
@@ -681,12 +709,21 @@ fn run_children(cases_path: &std::path::Path, n: usize, workers: usize, timeout_
                 }
                 let hi = (lo + block).min(n);
                 let mut next = lo;
+                // a history that hit the watchdog is run once more on its own with a longer limit
+                // (an overloaded machine must not be reported as a hang of the VM)
+                let mut confirm: Option<usize> = None;
                 while next < hi {
+                    let (from, to, limit) = match confirm {
+                        Some(i) => (i, i + 1, timeout_s * 6),
+                        None => (next, hi, timeout_s),
+                    };
                     let mut child = std::process::Command::new(&exe)
                         .arg("child")
                         .arg(format!("file={}", cases_path.display()))
-                        .arg(format!("start={}", next))
-                        .arg(format!("end={}", hi))
+                        .arg(format!("offset={}", block_offsets[b]))
+                        .arg(format!("first={}", lo))
+                        .arg(format!("start={}", from))
+                        .arg(format!("end={}", to))
                         .stdout(std::process::Stdio::piped())
                         .stderr(std::process::Stdio::null())
                         .spawn()
@@ -708,7 +745,7 @@ fn run_children(cases_path: &std::path::Path, n: usize, workers: usize, timeout_
                     let mut current: Option<usize> = None;
                     let mut failed: Option<&'static str> = None;
                     loop {
-                        match lrx.recv_timeout(std::time::Duration::from_secs(timeout_s)) {
+                        match lrx.recv_timeout(std::time::Duration::from_secs(limit)) {
                             Ok(l) => {
                                 let parts: Vec<&str> = l.split('\t').collect();
                                 if parts[0] == "S" {
@@ -743,12 +780,22 @@ fn run_children(cases_path: &std::path::Path, n: usize, workers: usize, timeout_
                     let status = child.wait().ok();
                     let _ = reader.join();
                     match failed {
+                        Some("hang") if confirm.is_none() => {
+                            confirm = Some(current.unwrap_or(next));
+                            restarts += 1;
+                        }
                         Some(kind) => {
                             let i = current.unwrap_or(next);
                             lines.push((i, format!("<{}>", kind)));
-                            viols.push(serde_json::json!({"kind": kind, "history_index": i, "exit": format!("{:?}", status)}));
+                            viols.push(serde_json::json!({"kind": kind, "history_index": i, "exit": format!("{:?}", status),
+                                "confirmed_with_limit_s": limit}));
                             next = i + 1;
                             restarts += 1;
+                            confirm = None;
+                        }
+                        None if confirm.is_some() => {
+                            // the re-run finished: `next` was advanced by its result line
+                            confirm = None;
                         }
                         None => {
                             if next < hi {
